@@ -26,6 +26,7 @@ import (
 	"google.golang.org/protobuf/types/known/timestamppb"
 
 	"verifharness/engine"
+	"verifharness/recstore"
 	"verifharness/world"
 )
 
@@ -38,6 +39,9 @@ type azCase struct {
 	Wrap    bool   `json:"storage_wrapper"`
 	Steps   int    `json:"steps"`
 	Seed    int64  `json:"seed"`
+	// Faults: one storage operation of some of the judged fetch calls fails (the only-if oracle
+	// must hold whatever storage does: a failed lookup must never count as an authorization)
+	Faults bool `json:"single_storage_faults,omitempty"`
 }
 
 type azNode struct {
@@ -62,6 +66,7 @@ type azWorld struct {
 	wrapperOn bool
 	foreignRW interface{}
 	trace     []string
+	rec       *recstore.Rec
 }
 
 func (w *azWorld) log(f string, a ...any) {
@@ -391,7 +396,21 @@ func (w *azWorld) fetch(step int) {
 	var resp *types.FetchNodeCredentialsResponse
 	var err error
 	desc := fmt.Sprintf("%s step %d %s", engine.J(w.ac), step, engine.J(f))
-	if p, st := engine.Guard(func() { resp, err = registration.FetchNodeCredentials(w.s.Ctx, w.s.Store, req, w.callOpts()...) }); p != nil {
+	faultDesc := ""
+	if w.rec != nil && w.rng.Intn(2) == 0 {
+		k, kind := 1+w.rng.Intn(7), recstore.FaultKinds[w.rng.Intn(len(recstore.FaultKinds))]
+		w.rec.Arm(k, kind)
+		faultDesc = fmt.Sprintf("%s at storage operation %d", kind, k)
+	}
+	p, st := engine.Guard(func() { resp, err = registration.FetchNodeCredentials(w.s.Ctx, w.s.Store, req, w.callOpts()...) })
+	if w.rec != nil {
+		if faultDesc != "" && w.rec.Fired() {
+			r.Count("fetches_judged_with_a_storage_fault", 1)
+			w.log("fault: %s", faultDesc)
+		}
+		w.rec.Arm(0, "")
+	}
+	if p != nil {
 		r.Eval(desc, true)
 		r.Violation("panic:"+engine.LibraryFrame(st), fmt.Sprintf("FetchNodeCredentials panicked: %v", p), w.witness(f))
 		return
@@ -455,13 +474,21 @@ func (w *azWorld) witness(f azFetch) map[string]any {
 }
 
 func runAzCase(c *engine.Ctx, ac azCase) {
-	s, err := world.NewServer(world.ServerCfg{Backend: ac.Backend, StorageWrap: ac.Wrap, RegWrap: true})
+	var rec *recstore.Rec
+	cfg := world.ServerCfg{Backend: ac.Backend, StorageWrap: ac.Wrap, RegWrap: true}
+	if ac.Faults {
+		cfg.Wrap = func(in nodeenrollment.Storage) nodeenrollment.Storage {
+			rec = recstore.New(in)
+			return rec.Wrap()
+		}
+	}
+	s, err := world.NewServer(cfg)
 	if err != nil {
 		c.R.Broken(err.Error())
 		return
 	}
 	defer s.Close()
-	w := &azWorld{c: c, ac: ac, s: s, rng: rand.New(rand.NewSource(ac.Seed)), wrapperOn: true}
+	w := &azWorld{c: c, ac: ac, s: s, rng: rand.New(rand.NewSource(ac.Seed)), wrapperOn: true, rec: rec}
 	// seed the cast
 	for i := 0; i < 3; i++ {
 		w.operator()
@@ -504,13 +531,14 @@ func runAuthz(c *engine.Ctx) engine.Result {
 		if !c.Quick() || i%8 == 0 {
 			be = []string{world.Inmem, world.File, world.StoreOnce}[i%3]
 		}
-		cases = append(cases, azCase{Backend: be, Wrap: i%4 == 1, Steps: steps, Seed: rng.Int63()})
+		cases = append(cases, azCase{Backend: be, Wrap: i%4 == 1, Steps: steps, Seed: rng.Int63(), Faults: i%3 == 2})
 	}
 	r.Sample(cases[0])
 	r.Sample(azFetch{Cert: "removed", Enc: "own", Nonce: "own", Wrapped: "none", Rewrapped: "match", WrapperOn: true})
 	engine.ForEach(len(cases), engine.Workers(), func(i int) { runAzCase(c, cases[i]) })
 	r.Require("issued_under:(a) existing matching record", 20)
 	r.Require("issued_under:(b) unused unexpired token", 10)
+	r.Require("fetches_judged_with_a_storage_fault", 50)
 	r.Require("issued_under:(c) sealed registration info", 20)
 	r.Require("refused", 500)
 	for _, k := range []string{"other-node", "fresh32", "token-used", "token-expired", "token-never-issued", "garbage"} {
